@@ -643,6 +643,15 @@ def r4_markers(ctx, F):
     rt = R(v.ret(), b, v)
     ctx.check(rule, "whiteout/writer-existing", "overlay::is_whiteout(FileSystem::lookup(" in "".join(R(x, b, v) for (x, l, u) in [g for c in live_calls(b) for g in v.guards(c.bb)]) and "EEXIST" in "".join(R(v.call_args(c)[0], b, v) for c in live_calls(b) if c.name == "from_raw_os_error"),
               "Layer::create_whiteout must accept an existing whiteout and refuse (EEXIST) any other existing entry", loc=b.loc())
+    # the device node is made exactly when the name is free: the lookup found nothing (inode 0) or failed with ENOENT
+    if len(mk) == 1:
+        from rules import c18
+        paths = [[(t_, l_) for (t_, l_) in pf if not t_.startswith("discr(Result::branch")] for pf in c18.path_facts(b, v, mk[0].bb)]
+        free = lambda pf: any(t_.startswith("Eq(0, FileSystem::lookup(self, ctx, parent, name)?.inode)") and l_ != 0 for (t_, l_) in pf) or \
+            any(t_.startswith("Eq(ENOENT, some(Error::raw_os_error(FileSystem::lookup(self, ctx, parent, name)") and l_ != 0 for (t_, l_) in pf)
+        ctx.check(rule, "whiteout/writer-only-free-names", bool(paths) and all(free(pf) for pf in paths) and len(paths) == 2,
+                  "Layer::create_whiteout reaches mknod on %d paths; each must have established that the name is free (lookup gave inode 0, or failed with ENOENT): %s"
+                  % (len(paths), [[(t_[:40], l_) for (t_, l_) in pf][-2:] for pf in paths]), loc=mk[0].loc())
     b = prov("is_whiteout")
     v = vf.VF(b, inline_depth=0)
     t = R(v.ret(), b, v)
